@@ -138,7 +138,10 @@ def gen_scenario(seed, opts):
             if tools == "real" and kind == "valid" and j > 0:
                 kind = "valid2"
             sub = "d%d/" % r.below(2) if r.below(6) == 0 else ""
-            name = "%si%d_%s%d.%s" % (sub, i, "abcde"[j], r.below(3), ext)
+            stem_extra = r.pick(["", "", "", ".tab", ".x.y", ".c", ".o"])   # base names with more than one dot
+            name = "%si%d_%s%d%s.%s" % (sub, i, "abcde"[j], r.below(3), stem_extra, ext)
+            if not sub and r.below(8) == 0:
+                name = "./" + name
             # inputs are shared on purpose: the same file (or an equally named file in another directory)
             # given to an earlier invocation, typically with another -o / another mode, as parallel builds do
             if all_inputs and r.below(3) == 0:
@@ -178,6 +181,10 @@ def gen_scenario(seed, opts):
                 out = "osub%d/%s" % (i, out)   # fine: an existing subdirectory
                 files["osub%d/keep" % i] = "text"
         argv = {"E": ["-E"], "S": ["-S"], "c": ["-c"], "link": [], "M": ["-M"]}[mode]
+        if r.below(8) == 0:
+            extra_mode = {"E": ["-c"], "M": ["-c"], "S": ["-c"], "c": [], "link": []}[mode] if r.below(2) else {"E": ["-S"], "M": ["-S"], "S": [], "c": [], "link": []}[mode]
+            if extra_mode:
+                argv = (argv + extra_mode) if r.below(2) else (extra_mode + argv)
         nc = sum(1 for n, _ in inputs if n.endswith(".c"))
         if mode in ("c", "S", "link") and tools == "stub" and r.below(6 if mode != "S" else 3) == 0 and (nc == 1 or not use_o):
             argv.append("-MD")            # dependency files are outputs too
@@ -478,7 +485,7 @@ class Machine:
         shutil.rmtree(cwd, ignore_errors=True)
         os.makedirs(cwd)
         for name, kind in sorted(self.scn["files"].items()):
-            p = os.path.join(cwd, name)
+            p = os.path.normpath(os.path.join(cwd, name))
             os.makedirs(os.path.dirname(p), exist_ok=True)
             if kind == "dir":
                 os.makedirs(p, exist_ok=True)
